@@ -8,8 +8,12 @@ import re
 ROOT = os.path.dirname(os.path.dirname(os.path.abspath(__file__)))
 S = os.path.join(ROOT, "seeded")
 desc = json.load(open(os.path.join(S, "round2_descriptions.json")))
+for extra in ("round3_descriptions.json", "round4_descriptions.json"):
+    if os.path.exists(os.path.join(S, extra)):
+        desc.update(json.load(open(os.path.join(S, extra))))
 INITIALLY_MISSED = set("""C01-2 C03-1 C06-1 C06-2 C07-1 C07-2 C08-1 C12-2 C13-2 C14-1 C14-2 C15-1 C16-1 C16-2 C17-2 C18-2 C19-1 C19-2 C20-2
-C01-4 C02-3 C03-3 C04-4 C05-4 C06-3 C09-3 C09-4 C10-3 C10-4 C11-3 C11-4 C13-3 C14-3 C14-4 C15-3 C15-4 C16-3 C16-4 C17-3 C18-4 C19-3 C20-3 C20-4""".split())
+C01-4 C02-3 C03-3 C04-4 C05-4 C06-3 C09-3 C09-4 C10-3 C10-4 C11-3 C11-4 C13-3 C14-3 C14-4 C15-3 C15-4 C16-3 C16-4 C17-3 C18-4 C19-3 C20-3 C20-4
+C01-5 C01-6 C02-5 C02-6 C03-5 C05-5 C06-5 C07-5 C08-5 C09-5 C09-6 C10-5 C11-5 C11-6 C12-5 C12-6 C13-5 C14-6 C16-5 C17-6 C18-5 C18-6 C20-6""".split())
 results = {}
 rp = os.path.join(S, "RESULTS.md")
 if os.path.exists(rp):
@@ -27,9 +31,9 @@ for d in sorted(os.listdir(S)):
     else:
         conf = dict(l.strip().split(": ", 1) for l in open(os.path.join(p, "confirm.txt")) if ": " in l and not l.startswith(" "))
         meta = {
-            "id": d, "property": d[:3], "round": 2,
-            "origin": "independent sub-agent given only the property text, the one-line descriptions of the two round-1 changes for the same "
-                      "property (to avoid repeats) and a scratch worktree of /repo",
+            "id": d, "property": d[:3], "round": (int(d[-1]) + 1) // 2,
+            "origin": "independent sub-agent given only the property text, one-line descriptions of the changes delivered for the same "
+                      "property in earlier rounds (to avoid repeats) and a scratch worktree of /repo",
             "change": desc[d]["change"], "needs_to_manifest": desc[d]["needs_to_manifest"],
             "confirmed": {"repository_suite_with_patch": conf.get("suite"), "demo_with_patch_exit": int(conf.get("demo_with_patch_rc", -1)),
                           "demo_on_pristine_exit": int(conf.get("demo_pristine_rc", -1)),
